@@ -1,0 +1,21 @@
+package poaante
+
+import (
+	sdk "github.com/cosmos/cosmos-sdk/types"
+)
+
+// nestedMsgs returns the messages carried by msg when msg is a message that wraps and later
+// executes other messages (authz MsgExec, gov and group MsgSubmitProposal, ...). The second return
+// value reports whether msg is such a carrier.
+func nestedMsgs(msg sdk.Msg) ([]sdk.Msg, bool, error) {
+	switch m := msg.(type) {
+	case interface{ GetMessages() ([]sdk.Msg, error) }:
+		msgs, err := m.GetMessages()
+		return msgs, true, err
+	case interface{ GetMsgs() ([]sdk.Msg, error) }:
+		msgs, err := m.GetMsgs()
+		return msgs, true, err
+	}
+
+	return nil, false, nil
+}
